@@ -104,6 +104,7 @@ type c04loopInfo struct {
 	failsOK  bool
 	offsetOK bool
 	tagsOK   bool
+	cacheOK  bool // the fields text is rebuilt whenever the event's fields differ from the cached ones — no further condition
 }
 
 // the read loop of a Query function
@@ -300,6 +301,67 @@ func c04queryLoop(fd *ast.FuncDecl, emit func(ast.Node) bool, success func(ast.N
 			}
 			return true
 		})
+	}
+	// the one-entry cache of the fields text: `if <ev>.Fields != V { T = <ev>.Fields.AsKVString(); V = … }` — the condition is
+	// exactly that inequality (either order, `!(a == b)` accepted), no further conjunct
+	if li.okBlock != nil && li.evVar != "" {
+		nRebuild := 0
+		good := true
+		ast.Inspect(li.okBlock.Body, func(n ast.Node) bool {
+			is, ok := n.(*ast.IfStmt)
+			if !ok {
+				return true
+			}
+			rebuilds := false
+			for _, b := range is.Body.List {
+				if as, ok := b.(*ast.AssignStmt); ok && len(as.Rhs) == 1 {
+					if c, nm := c04callSel(as.Rhs[0]); c != nil && nm == "AsKVString" {
+						rebuilds = true
+					}
+				}
+			}
+			if !rebuilds {
+				return true
+			}
+			nRebuild++
+			isEvF := func(e ast.Expr) bool {
+				pfx, f := c04selSplit(e)
+				return pfx == li.evVar && f == "Fields"
+			}
+			cached := ""
+			isVar := func(e ast.Expr) bool {
+				id, ok := e.(*ast.Ident)
+				if ok {
+					cached = id.Name
+				}
+				return ok
+			}
+			if c04cmpOp(is.Cond, isEvF, isVar) != "!=" {
+				good = false
+				return true
+			}
+			// the cached value is renewed in the same block
+			renews := false
+			for _, b := range is.Body.List {
+				if as, ok := b.(*ast.AssignStmt); ok && len(as.Lhs) == 1 && c04isIdent(as.Lhs[0], cached) {
+					renews = true
+				}
+			}
+			if !renews {
+				good = false
+			}
+			return true
+		})
+		// a text that is rebuilt for every event without any cache is fine too
+		uncond := false
+		for _, b := range li.okBlock.Body.List {
+			if as, ok := b.(*ast.AssignStmt); ok && len(as.Rhs) == 1 {
+				if c, nm := c04callSel(as.Rhs[0]); c != nil && nm == "AsKVString" {
+					uncond = true
+				}
+			}
+		}
+		li.cacheOK = uncond || (good && nRebuild == 1)
 	}
 	return li
 }
@@ -809,6 +871,10 @@ func c04callerFacts(l *leanFile) {
 	l.p("/-- both read loops set `le.Tags` from the tag line the same `cur.Get` returned, for every event; the RPC encoder's")
 	l.p("`writeLogEvent` writes `ev.Tags` unconditionally for every event (nothing is elided for equal consecutive tag lines) -/")
 	l.p("def queryResultCarriesTags : Bool := %s", leanBool(bl.tagsOK && rl.tagsOK && encOK))
+	l.p("/-- both read loops keep a one-entry cache of the fields text and rebuild it (and renew the cached fields) whenever the event's")
+	l.p("fields differ from the cached ones — the condition is exactly `<ev>.Fields != <cached>`, no further conjunct (such as")
+	l.p("`len(<ev>.Fields) > 0 &&`, which would send an event without fields with the text of the previous event) -/")
+	l.p("def fieldsCacheRefreshedOnAnyDifference : Bool := %s", leanBool(bl.cacheOK && rl.cacheOK))
 	l.p("/-- the fields of an event in the order `writeLogEvent` writes them -/")
 	l.p("def wireEventFieldOrder : List String := %s", c04leanStrList(order))
 
